@@ -297,6 +297,18 @@ bool url_aggregator::set_port(const std::string_view input) {
   ada_log("url_aggregator::set_port ", input);
   ADA_ASSERT_TRUE(validate());
   ADA_ASSERT_TRUE(!helpers::overlaps(input, buffer));
+  const uint32_t previous_port = components.port;
+  if (!set_port_unchecked(input)) {
+    return false;
+  }
+  if (buffer.size() > ada::get_max_input_length()) {
+    update_base_port(previous_port);
+    return false;
+  }
+  return true;
+}
+
+bool url_aggregator::set_port_unchecked(const std::string_view input) {
   if (cannot_have_credentials_or_port()) {
     return false;
   }
@@ -328,10 +340,6 @@ bool url_aggregator::set_port(const std::string_view input) {
   url_aggregator saved_url(*this);
   parse_port(digits_to_parse);
   if (is_valid) {
-    if (buffer.size() > ada::get_max_input_length()) {
-      *this = std::move(saved_url);
-      return false;
-    }
     return true;
   }
   *this = std::move(saved_url);
@@ -663,7 +671,10 @@ bool url_aggregator::set_host_or_hostname(const std::string_view input) {
       // state.
       std::string_view port_buffer = new_host.substr(location + 1);
       if (!port_buffer.empty()) {
-        set_port(port_buffer);
+        // The length is checked once, below, for host and port together: a
+        // port that does not fit must fail the whole operation, not only be
+        // dropped.
+        set_port_unchecked(port_buffer);
       }
       return check_url_size();
     }
